@@ -30,7 +30,11 @@ ASSUMPTIONS = [
 RULE = ("structured blob values: key_info sizes 0..800, content lengths from the DER boundary table (0,1,127,128,255,256,65535,65536,..), parameters absent/present, both layouts, 32-bit "
         "field boundaries {0,1,2^31,2^32-1}, Unicode names incl. non-BMP; the 17 captured Windows blobs; mutated blobs compared by outcome bucket; every case with produced bytes or a distinct "
         "error class is non-trivial; distinct = distinct canonical case text per unit")
-PARTIAL: list = []
+PARTIAL = [
+    "strict DER read-back (strict_parse (pack x) = [cms_tree x]) is proved for the emitted template (C06_emitted_template: AES256-wrap without "
+    "parameters, GCM parameters as a tree) and not for arbitrary wf blob values, whose algorithm parameters are opaque octets that need not be DER; "
+    "for those C06_is_cms gives pack = encode(cms_tree) and the check's independent strict reader re-parses every generated case",
+]
 
 OID_WRAP = [2, 16, 840, 1, 101, 3, 4, 1, 45]
 OID_GCM = [2, 16, 840, 1, 101, 3, 4, 1, 46]
